@@ -44,7 +44,10 @@ CLAIMED = {
                      'treespec made by flatten), C04_path_reaches_leaf (following the i-th path from the tree - position, dict key, registration entry - '
                      'reaches exactly the i-th leaf flatten returned; Lemmas/UpToSelf.lean + UpToAlign.lean), C04_paths_prefix_free (pairwise distinct and prefix-free when the child entries of every node are '
                      'distinct); C04_path_of_accessor (accessor walk and path walk run in lock step: .path of the i-th accessor is the i-th path, any node '
-                     'array), C04_path_of_accessor_leaf, C04_resolveEntryKind_not_auto. Accessor application to trees and codify/eval: oracle only.' + PARTIAL,
+                     'array), C04_path_of_accessor_leaf, C04_resolveEntryKind_not_auto; C04_accessors_refines (accessors() on the encoding of any typed shape is the tree-level '
+                     'typed listing accsT; stripping the types gives pathsT; Lemmas/EncAccessors.lean), C04_accessors_of_flatten (for every treespec made by flatten '
+                     'accessors() succeeds, one per leaf, and following the entries of the i-th accessor from the tree reaches the i-th leaf), '
+                     'C04_accessor_entries_resolved (no entry is the AutoEntry dispatcher). The Python entry classes (__call__ via obj[key] / getattr, codify/eval): oracle only.' + PARTIAL,
                 technique='Lean 4 proof (fuel induction over two index walkers) + correspondence', ref='6 C04'),
     'C05': dict(text='Proved about the model of ops.py: C05_calls_in_order, C05_calls_prefix, C05_prefix_failure_before_calls, '
                      'C05_inplace_returns_tree; and through the refinement theorems of C07 (flatten_up_to = structural match against the first '
@@ -93,7 +96,7 @@ CLAIMED = {
                      'C08_normIndex_none/some (Python index semantics), C08_child_index_error, C08_entry_of_entries, C08_one_level, '
                      'C08_compose_counts, C08_compose_rejects, C08_transform_none, C08_make_leaf_none, C08_repr_affixes; C08_compose_is_structure (tree level: replacing every leaf of '
                      'an a-shaped tree by b-shaped trees gives a tree whose treespec has exactly the node array of treespec(a).compose(treespec(b)), whose leaves are '
-                     'the leaves of the grafted trees in order, and num_leaves multiply; Lemmas/Graft.lean, structural induction with dict children re-sorted under the same keys). The sorting constructors (treespec_dict / defaultdict), the class constructors and '
+                     'the leaves of the grafted trees in order, and num_leaves multiply; Lemmas/Graft.lean, structural induction with dict children re-sorted under the same keys); C08_constructor_is_structure / C08_constructor_matches_flatten (for every container the engine handles itself - tuple, list, deque, dict, OrderedDict, defaultdict in either dict-order mode, unregistered namedtuple / struct-sequence classes - treespec_from_collection over the same container holding the treespecs of the children returns exactly the node array tree_structure returns for the tree: the sorting constructors included). Constructors of registered custom classes and '
                      'transform with node functions: correspondence (5000+ lines per run) + oracle.' + PARTIAL,
                 technique='Lean 4 proof + correspondence', ref='6 C08'),
     'C09': dict(text='Proved for all well-formed shapes whose payloads fit their kinds, any nesting and any dict key orders: C09_broadcast_refines - the merge walk '
